@@ -50,6 +50,8 @@ pub enum Op {
     Block { b: (u64, u64), p: (u64, u64) },
     Standstill,
     Wait(u64),
+    /// registers a waiter and drops its receiver at once (a block producer that gave up on the window)
+    WaitAbandon(u64),
 }
 
 /// Interned block hash id -> 32 bytes such that byte order = numeric order; 0 = genesis.
@@ -253,6 +255,7 @@ impl Runner {
         let infos: Vec<ValidatorInfo> = self.epoch.epoch_info().validators().to_vec();
         let mut verdict = String::new();
         let mut wait_res: Option<Option<(u64, u64)>> = None;
+        let mut abandoned_now: Option<u64> = None;
         let (op_txt, res): (String, Result<String, ()>) = match op {
             Op::Vote { slot, kind, hash, signer } => {
                 if *slot <= self.slot_cap { self.max_slot = self.max_slot.max(*slot); }
@@ -351,6 +354,24 @@ impl Runner {
                     Err(_) => (txt, Err(())),
                 }
             }
+            Op::WaitAbandon(s) => {
+                let pool = &mut self.pool;
+                let slot = Slot::new(*s);
+                let r = catch_unwind(AssertUnwindSafe(|| pool.wait_for_parent_ready(slot)));
+                let txt = format!("(OpWait {})", cf::n(*s));
+                match r {
+                    Ok(Either::Left(id)) => {
+                        let v = (id.0.inner(), id_of(&id.1));
+                        (txt, Ok(format!("(RWait (Some {}))", r_bid(v))))
+                    }
+                    Ok(Either::Right(rx)) => {
+                        drop(rx);
+                        abandoned_now = Some(*s);
+                        (txt, Ok("(RWait None)".to_string()))
+                    }
+                    Err(_) => (txt, Err(())),
+                }
+            }
         };
         let _ = wait_res;
         let mut events = Vec::new();
@@ -371,6 +392,8 @@ impl Runner {
             }
         }
         self.waiters = still;
+        // marker of an abandoned waiter: a woken entry on the OpWait step itself (see Oracle/PoolRun.v)
+        if let Some(s) = abandoned_now { woken.push((s, (0, 0))); }
         let panicked = res.is_err();
         let mut invalid_certs = Vec::new();
         for e in &events {
